@@ -96,7 +96,8 @@ reg = {
         "h_types.rs": "src/types.rs",
         "h_complex_types.rs": "src/complex_types.rs",
         "h_btree_base.rs": "src/tree_store/btree_base.rs",
-        "h_buddy.rs": "src/tree_store/page_store/buddy_allocator.rs",
+        "x_buddy.rs": "src/tree_store/page_store/buddy_allocator.rs",
+        "x_region.rs": "src/tree_store/page_store/region.rs",
     },
     # bounded Kani twins of Verus obligations: run only after a Verus refutation, to look for a concrete failing input
     "twins": {
@@ -124,12 +125,20 @@ reg = {
     "properties": {},
 }
 P = reg["properties"]
+NATIVE = {
+    "X-resize": {"id": "C14-X-resize", "test": "x14_resize_contract", "bound": "capacities {1,2,7,16,33,64}; every initial size; states reached by <= 2 allocations (orders 0..3) and <= 1 free; every new size; I1/I2 checked by redb's own debug_check_consistency after each resize"},
+    "X-hfo": {"id": "C14-X-hfo", "test": "x14_highest_free_order_contract", "bound": "same states"},
+    "X-ser": {"id": "C14-X-ser", "test": "x14_serialize_roundtrip", "bound": "same states: to_vec/from_bytes preserves every bit of every order, len, max_order, the hash, and the next allocation of each order"},
+    "X-trk-resize": {"id": "C14-X-trk-resize", "test": "x14_region_tracker_resize_contract", "bound": "1..70 regions grown by 0..70, 8 mark patterns"},
+    "X-trk-ser": {"id": "C14-X-trk-ser", "test": "x14_region_tracker_roundtrip", "bound": "1..130 regions, 8 mark patterns"},
+}
 P["C14"] = {
     "level": "proof",
+    "native": [NATIVE[k] for k in ("X-resize", "X-hfo", "X-ser", "X-trk-resize", "X-trk-ser")],
     "verus": [{"unit": "alloc", "functions": ALLOC_CORE + LAYOUT}],
     "kani": [],
     "explanation": "Every clause of the statement is a postcondition over the set of free pages (free_set = {p | st().cov(0,p)}) of the REAL bodies of bitmap.rs, buddy_allocator.rs, region.rs and allocate_helper_retry, extracted from /repo on every run and verified by Verus for all sizes, orders and states: blocks handed out lie inside the region and were free (alloc/alloc_inner, and alloc_lowest with its allocate-compare-free-split loops), refusal only when nothing of that order or larger is free (with lemma_bridge: no aligned free block exists), free makes exactly the block's pages free and merges with free buddies (I2), record_alloc marks exactly the block or refuses leaving the state unchanged, I1 (no page free at two orders) and I2 (buddies always merged) are established by new() and preserved; the region tracker never reports full a region holding a suitable free block (TRK) - established by Allocators::new, preserved by allocate_helper_retry.",
-    "not_decided": "the statements of TransactionalMemory::free_helper outside the extracted fragment (mutex, debug bookkeeping, cache invalidation); serialisation round trip (to_vec/from_bytes are external_body); the bodies of the resize family and of highest_free_order (see assumptions); minimality of alloc_lowest's result (its contract is alloc's: the returned block was free, exactly it was removed)",
+    "not_decided": "the statements of TransactionalMemory::free_helper outside the extracted fragment (mutex, debug bookkeeping, cache invalidation); serialisation round trip beyond the bounded native check C14-X-ser (to_vec/from_bytes are external_body for Verus); the bodies of the resize family and of highest_free_order (see assumptions); minimality of alloc_lowest's result (its contract is alloc's: the returned block was free, exactly it was removed)",
     "assumptions": ["BuddyAllocator::resize, BuddyAllocator::highest_free_order, BtreeBitmap::resize and RegionTracker::resize carry ASSUMED contracts (external_body: iterator adapters / iter_mut loops Verus cannot read); Allocators::resize_to is VERIFIED against them: it preserves wf and TRK, gives every region the size the new layout says, builds new regions for the capacity of a full region, and leaves unchanged regions untouched"],
 }
 P["C20"] = {
@@ -205,6 +214,7 @@ P["C09"] = {
 }
 P["C11"] = {
     "level": "proof",
+    "native": [dict(NATIVE["X-ser"], id="C11-X-ser"), dict(NATIVE["X-trk-ser"], id="C11-X-trk-ser"), dict(NATIVE["X-resize"], id="C11-X-resize")],
     "verus": [{"unit": "alloc", "functions": ["BuddyAllocator::record_alloc", "BuddyAllocator::record_alloc_inner", "BS::*", "lemma_*", "Allocators::new", "RegionTracker::new", "BuddyAllocator::new",
                                               "Allocators::resize_to", "Allocators::lemma_*", "DatabaseLayout::recalculate", "DatabaseHeader::layout", "DatabaseHeader::set_layout"]}],
     "kani": [K["C11-R3"]],
